@@ -222,7 +222,45 @@ def run(ctx):
                     old = _FAILS.get(key)
                     if old is None or len(f["command"]) < len(old["command"]):
                         _FAILS[key] = f
+    # ---- content validity of one-token clauses: model (extracted option tables) vs ParseError ----
+    VAL = {
+        "framer": ("verb_framer", "valid_framer", S_FRAMER, ["framer", "t"], {
+            "be": ["active", "inactive", "aux", "slave", "moot", "bogus", "Active"],
+            "in": ["front", "mid", "back", "top"], "first": ["s", "s2", "9x", "to", "a-b", "_p"], "at": ["0.5"]}),
+        "logger": ("verb_logger", "valid_logger", S_LOGGER, ["logger", "lg"], {
+            "be": ["active", "inactive", "slave", "aux", "moot"], "in": ["front", "mid", "back", "Front"],
+            "keep": ["2"], "reuse": [None], "to": ["/tmp/ioflo_c15/"]}),
+        "log": ("verb_log", "valid_log", S_LOG, ["log", "st"], {
+            "as": ["text", "binary", "ascii", "Text"], "to": ["fname"],
+            "on": ["update", "UPDATE", "Update", "uPdAtE", "deck", "never", "sometimes", "on"]}),
+    }
+    vcases, vmetas = [], []
+    for verb, (vname, vtab, script, prefix, pool) in VAL.items():
+        singles = [(c, v) for c in pool for v in pool[c]]
+        combos = [[x] for x in singles]
+        pairs = [(a, b) for a in singles for b in singles if a[0] != b[0]]
+        ctx.rng.shuffle(pairs)
+        combos += [list(p) for p in pairs[:ctx.n(40, 400)]]
+        for combo in combos:
+            toks = list(prefix)
+            for c, v in combo:
+                toks += [c] + ([v] if v is not None else [])
+            nbuild += 1
+            out = flolib.build_text(ctx.work, script.replace("{CMD}", " ".join(toks)), mem=(nbuild % 4 != 0))
+            ok = out[0] != "ParseError"
+            ctx.case({"verb": verb, "command": " ".join(toks), "outcome": out[0]}, nontrivial=True,
+                     kind="valid:%s:%s" % (verb, out[0]))
+            vcases.append(("match checked (valid_clause gen_reserved %s) (parse_cmd gen_reserved %s (T %s)) with "
+                           "Some _ => true | None => false end" % (vtab, vname, cstrs(toks[1:])),
+                           "true" if ok else "false"))
+            vmetas.append((" ".join(toks), out[0]))
     ctx.extra["builds"] = nbuild
+    if tables is not None:
+        vbad = ctx.coq_cases(HEADER, "Bool.eqb", vcases, shard=100, name="valid")
+        for i in vbad[:5]:
+            ctx.tie_broken("correspondence", "C15 extracted content checks vs Builder",
+                           "command=%r implementation=%r" % vmetas[i])
+        ctx.extra["validity_mismatches"] = len(vbad)
 
     bad = ctx.coq_cases(HEADER, "bl_eqb", cases, shard=150) if tables is not None else []
     for i in bad[:5]:
